@@ -605,14 +605,14 @@ pub fn gen_scenario_full(seed: u64, idx: usize, big: bool, big_stderr: bool, hug
             };
             tokens = toks;
             // up to and beyond the capacity of a pipe (64 KiB): the child must never block on stderr
-            let stderr_len = if big_stderr { *rng.pick(&[70_000usize, 200_000]) } else { *rng.pick(&[0usize, 0, 40, 400, 4000, 70_000]) };
+            let stderr_len = if big_stderr { if idx % 2 == 0 { 70_000usize } else { 200_000 } } else { *rng.pick(&[0usize, 0, 40, 400, 4000, 70_000]) };
             if stderr_len >= 65_536 {
                 sub = format!("{}-stderr>=64k", sub);
             }
             let mut stderr: Vec<u8> = Vec::new();
             let mut i = 0;
             // one time in three some lines are not valid UTF-8 (a Latin-1 file name in a warning)
-            let latin1 = rng.chance(1, 3);
+            let latin1 = rng.chance(1, 3) || (big_stderr && idx % 2 == 1);
             while stderr.len() < stderr_len {
                 if latin1 && i % 5 == 1 {
                     stderr.extend_from_slice(b"warning: in the working copy of 'caf\xe9.txt', LF will be replaced by CRLF\n");
@@ -719,7 +719,7 @@ pub fn budget(tier: &str) -> Budget {
     if tier == "thorough" {
         Budget { huge_k_samples: 200, scenarios: 1200, big_scenarios: 40, max_k_per_scenario: 100000, transparent_per_scenario: 4, quit_per_scenario: 3 }
     } else {
-        Budget { huge_k_samples: 12, scenarios: 32, big_scenarios: 2, max_k_per_scenario: 100000, transparent_per_scenario: 2, quit_per_scenario: 2 }
+        Budget { huge_k_samples: 12, scenarios: 32, big_scenarios: 2, max_k_per_scenario: 400, transparent_per_scenario: 2, quit_per_scenario: 2 }
     }
 }
 
@@ -887,14 +887,24 @@ pub fn main_c18(env: &Env, tier: &str, seed: u64, replay: Option<&str>) -> i32 {
         let mut rng = Rng::new(mix(seed, &[tag("C18"), tag("faults"), si as u64]));
         // (a) EPIPE at every write index
         let n = refi.n_writes;
+        if std::env::var("DELTASIM_DEBUG_SIZES").is_ok() {
+            eprintln!("SIZE {} {}/{} paging={} writes={}", s.name, s.kind, s.sub, s.paging, n);
+        }
         if n <= b.max_k_per_scenario && !s.name.starts_with("huge-") {
             for k in 0..n {
                 tasks.push(Task { scenario: si, fault: Fault::Epipe { k: k as i64 } });
             }
         } else if n > 0 {
-            // outputs of hundreds of KiB: the first writes, the last one and a seeded sample in between
+            // very long write sequences (outputs of hundreds of KiB; in the quick tier anything beyond
+            // 400 writes): the first writes, the last one and a seeded sample in between
             let mut ks: BTreeSet<usize> = [0usize, 1, 2, n - 1].iter().copied().filter(|k| *k < n).collect();
-            for _ in 0..b.huge_k_samples {
+            let extra = if s.name.starts_with("huge-") { b.huge_k_samples } else { 150 };
+            if !s.name.starts_with("huge-") {
+                for k in 0..40.min(n) {
+                    ks.insert(k);
+                }
+            }
+            for _ in 0..extra {
                 ks.insert(rng.range(0, n - 1));
             }
             for k in ks {
@@ -1025,7 +1035,7 @@ pub fn main_c18(env: &Env, tier: &str, seed: u64, replay: Option<&str>) -> i32 {
 
     ev.evaluations = (refs.len() + tasks.len()) as u64;
     ev.distinct_nontrivial = distinct.len() as u64;
-    ev.rule = "one evaluation = one execution of the real delta binary under the syscall shim for a (scenario, fault) pair; EPIPE is enumerated at every output write index of the scenario's fault-free run (for the few scenarios with several hundred KiB of input: the first three writes, the last one and a seeded sample), other fault kinds are seeded samples. distinct_nontrivial counts distinct (scenario, fault kind, fault index) triples whose fault was injected AND reached (an EPIPE planned beyond the last write, a stall that never happened etc. do not count).".into();
+    ev.rule = "one evaluation = one execution of the real delta binary under the syscall shim for a (scenario, fault) pair; EPIPE is enumerated at every output write index of the scenario's fault-free run (for the few scenarios with several hundred KiB of input, and in the quick tier for write sequences longer than 400: the first writes, the last one and a seeded sample), other fault kinds are seeded samples. distinct_nontrivial counts distinct (scenario, fault kind, fault index) triples whose fault was injected AND reached (an EPIPE planned beyond the last write, a stall that never happened etc. do not count).".into();
     for (k, v) in &fired {
         ev.counters.insert(format!("fault_fired.{}", k), *v);
     }
@@ -1166,7 +1176,7 @@ pub fn explicit_cells(seed: u64) -> Vec<Scenario> {
 pub fn fixed_scenarios(seed: u64) -> Vec<Scenario> {
     // deterministic coverage floor: each one-shot flag once, stdin diff in each paging mode with default pager
     let mut v = Vec::new();
-    for j in 0..2 {
+    for j in 0..4 {
         let mut s = gen_scenario_ext(seed, 3_000_000 + j, false, true);
         s.name = format!("fixed-bigstderr{}", j);
         v.push(s);
